@@ -68,9 +68,35 @@ def kvsOf : V → List (V × V)
   | .dict _ kvs => kvs
   | _ => []
 
-def handle (j : Json) : Json :=
+/-- the Py prims table with visible misses: the two variants answer a missing entry differently, so a run whose result
+depends on a missing entry differs between them -/
+def decodePyPrims (j : Json) (alt : Bool) : Utv.Py.Prims :=
+  let T := PyJson.decodePrims j
+  let hasF (tbl : String) (f : Utv.Py.FloatV) : Bool :=
+    (arr! (fld j tbl)).any fun p => match arr! p with
+      | x :: _ => PyJson.decodeFloat x == f
+      | _ => false
+  let hasD (d : Utv.Py.DecV) : Bool :=
+    (arr! (fld j "decStr")).any fun p => match arr! p with
+      | x :: _ => PyJson.decodeDec x == d
+      | _ => false
+  let hasR (f : Utv.Py.FloatV) (k : Int) : Bool :=
+    (arr! (fld j "floatRound")).any fun p => match arr! p with
+      | [x, kk, _] => PyJson.decodeFloat x == f && PyJson.intOfJson kk == k
+      | _ => false
+  let hasRe (pat s : String) : Bool :=
+    (arr! (fld j "re")).any fun p => match arr! p with
+      | [a, b, _] => str! a == pat && str! b == s
+      | _ => false
+  { floatRepr := fun f => if hasF "floatRepr" f then T.floatRepr f else (if alt then "1.5" else "<prim-miss floatRepr>")
+    decStr := fun d => if hasD d then T.decStr d else (if alt then "1.5" else "<prim-miss decStr>")
+    floatToDec := fun f => if hasF "floatToDec" f then T.floatToDec f else (if alt then some (.fin false 0 0) else none)
+    reFullmatch := fun pat s => if hasRe pat s then T.reFullmatch pat s else (if alt then some true else some false)
+    floatRound := fun f k => if hasR f k then T.floatRound f k else (if alt then .fin 1 0 else .nan) }
+
+def handle1 (j : Json) (alt : Bool) : Json :=
   let P := decodePrims (fld j "prims")
-  let PP := PyJson.decodePrims (fld j "pyprims")
+  let PP := decodePyPrims (fld j "pyprims") alt
   let D := decodeDEnv (fld j "env")
   let fuel := match optNat (fld j "fuel") with | some n => n | none => 40
   match str! (fld j "op") with
@@ -99,5 +125,11 @@ def handle (j : Json) : Json :=
     encodeOutcomeWith (fun (r : List (V × V) × V) => Json.mkObj [("args", encodeKvs r.1), ("ret", encodeV r.2)])
       (callFn P PP D fuel F body (kvsOf (decodeV (fld j "value"))))
   | _ => Json.mkObj [("driver-error", Json.str "unknown op")]
+
+def handle (j : Json) : Json :=
+  let a := handle1 j false
+  let b := handle1 j true
+  if a.compress == b.compress then a
+  else Json.mkObj [("unmodelled", Json.str "Py-prim table miss (the answer depends on a builtin the harness did not supply)")]
 
 def main : IO Unit := serveFlush handle
